@@ -1165,9 +1165,9 @@ class HTMLDocument:
             and isinstance(content[0], Tag)
             and cast(Tag, content[0]).name == "html"
         ):
-            html = cast(Tag, content[0])
+            # Work on a copy: rendering must not modify the user's own <html> tag.
+            html = cast(Tag, content[0]).tagify()
             html.attrs.update(**self._html_attr_args)
-            html = html.tagify()
             html = HTMLDocument._hoist_head_content(html, lib_prefix, include_version)
             return html
 
